@@ -496,6 +496,19 @@ func (dec *Decoder) List(f func() error) (isList bool, err error) {
 	}
 }
 
+// Nested runs f one nesting level deeper, for parsers of nested data which
+// don't go through List. It fails when the max depth is exceeded.
+func (dec *Decoder) Nested(f func() error) error {
+	dec.listDepth++
+	defer func() {
+		dec.listDepth--
+	}()
+	if dec.listDepth >= maxListDepth {
+		return fmt.Errorf("imapwire: exceeded max depth")
+	}
+	return f()
+}
+
 func (dec *Decoder) ExpectList(f func() error) error {
 	isList, err := dec.List(f)
 	if err != nil {
